@@ -173,7 +173,7 @@ func goEnv() []string {
 // BuildSelf builds another flavour of vcheck (e.g. with -race) from the same sources.
 func BuildSelf(name string, flags ...string) (string, error) {
 	out := filepath.Join(BuildDir(), name)
-	args := append([]string{"build"}, flags...)
+	args := append([]string{"build", "-tags", "verif"}, flags...)
 	args = append(args, "-modfile="+filepath.Join(BuildDir(), "harness.mod"), "-overlay="+filepath.Join(BuildDir(), "overlay.json"), "-o", out, "./cmd/vcheck")
 	cmd := exec.Command("go", args...)
 	cmd.Dir = filepath.Join(SrcDir(), "harness")
@@ -209,7 +209,7 @@ func BuildOverlayTest(pkgRel, outName string, files map[string]string, flags ...
 		return "", err
 	}
 	out := filepath.Join(BuildDir(), outName)
-	args := append([]string{"test", "-c", "-vet=off"}, flags...)
+	args := append([]string{"test", "-c", "-vet=off", "-tags", "verif"}, flags...)
 	args = append(args, "-overlay="+ov, "-o", out, "./"+pkgRel)
 	cmd := exec.Command("go", args...)
 	cmd.Dir = repo
